@@ -30,6 +30,12 @@
     `x0`), because the property is about these tables talking about the scalars the lifted code uses.
   * the predicates `SpEmitted … StackArgOffsetAbi`: one per clause of the property; all decidable, so on a
     closed `ArchDesc` they are proved by kernel evaluation (`decide`).
+  * the QUERIES `CallingConvention::argument_type / is_preserved / is_trashed` are code, not table entries, so
+    their answers are part of the regenerated `ArchDesc` too (`argTypes`, `isPreserved`, `isTrashed`) and have
+    their own clauses: `ArgTypesAbi` (the ABI's integer registers in order, then `Stack(abi offset + word bytes *
+    (n - k))`), `StackArgsWordApart` (successive stack arguments exactly one machine word apart, whatever
+    registers precede them), `QueriesAgree` (Some(true)/Some(false)/None according to the two sets, never both
+    Some(true), on every convention register, every sweep scalar and one register in neither set).
   * `fieldStr`/`specStr`: the line-protocol texts of `Drivers/C20.lean` (same text as `harness/src/bin/c20.rs`).
 
   Core Lean only (this file is linked into the native driver).
@@ -45,7 +51,14 @@ inductive RetAddr where
   | stack (offset : Nat)
   deriving DecidableEq, Repr
 
-/-- what falcon says (first block) and what its translator does (second block), for one architecture -/
+/-- an answer of `CallingConvention::argument_type` -/
+inductive ArgType where
+  | reg (r : Reg)
+  | stack (offset : Nat)
+  deriving DecidableEq, Repr
+
+/-- what falcon says (first block), what its translator does (second block) and what its queries answer (third
+    block), for one architecture -/
 structure ArchDesc where
   name : String
   endian : String                 -- "little" | "big"           Architecture::endian()
@@ -64,6 +77,9 @@ structure ArchDesc where
   loadAddrBits : Nat              -- width of the address expression of a lifted load
   storeAddrBits : Nat             -- … of a lifted store
   sweepFailed : List String       -- sweep encodings the translator rejected (information only)
+  argTypes : List ArgType         -- argument_type(n) for n = 0 ..= (number of argument registers + 6)
+  isPreserved : List (Reg × Option Bool)   -- is_preserved(r) for every probe register r (sorted), see `probes`
+  isTrashed : List (Reg × Option Bool)     -- is_trashed(r) for the same probes
 
 /-- what the platform ABI requires -/
 structure AbiSpec where
@@ -189,7 +205,36 @@ def ccNotEmitted (d : ArchDesc) : List Reg :=
 def preservedAndTrashed (d : ArchDesc) : List String :=
   ((d.preserved.filter (fun p => d.trashed.any (fun t => t.1 == p.1))).map (·.1)).eraseDups
 
+/-- the registers `is_preserved` / `is_trashed` were asked about -/
+def probes (d : ArchDesc) : List Reg := d.isPreserved.map (·.1)
+
+/-- the offsets of the stack answers of `argument_type` in the swept range, in order -/
+def stackOffsets (d : ArchDesc) : List Nat :=
+  d.argTypes.filterMap (fun t => match t with | .stack o => some o | .reg _ => none)
+
+/-- what `is_preserved` is documented to answer, given the two sets: `Some(true)` for a preserved register,
+    `Some(false)` for a trashed one, `None` for a register the convention does not mention -/
+def expectPreserved (d : ArchDesc) (r : Reg) : Option Bool :=
+  if d.preserved.contains r then some true else if d.trashed.contains r then some false else none
+
+/-- the same for `is_trashed` -/
+def expectTrashed (d : ArchDesc) (r : Reg) : Option Bool :=
+  if d.trashed.contains r then some true else if d.preserved.contains r then some false else none
+
 end ArchDesc
+
+/-- the made-up register the harness adds to the probes: in neither set by construction -/
+def noSuchRegister : String := "c20_no_such_register"
+
+/-- how many answers beyond the argument registers the harness sweeps (n = 0 ..= registers + 6) -/
+def extraArgs : Nat := 6
+
+/-- the answers `argument_type 0 … count-1` must give when the argument registers are `regs`, the first stack
+    argument is at `off` and a stack slot is `word` bytes: the registers in order, then successive stack
+    slots exactly one machine word apart -/
+def expectedArgTypes (regs : List Reg) (off word count : Nat) : List ArgType :=
+  (List.range count).map fun n =>
+    if h : n < regs.length then .reg regs[n] else .stack (off + word * (n - regs.length))
 
 /-! ### The clauses of the property (one predicate each) -/
 
@@ -236,12 +281,45 @@ def StackArgLenIsWord (d : ArchDesc) (a : AbiSpec) : Prop :=
 
 def StackArgOffsetAbi (d : ArchDesc) (a : AbiSpec) : Prop := d.stackArgOffset = a.stackArgOffset
 
+/-- `argument_type n`, for every n of the swept range (at least `extraArgs + 1` answers beyond the table's
+    argument registers): the first k answers are the ABI's integer argument registers in order, every later
+    answer is `Stack(abi offset + (word bytes) * (n - k))` -/
+def ArgTypesAbi (d : ArchDesc) (a : AbiSpec) : Prop :=
+  d.argTypes.length = d.args.length + extraArgs + 1 ∧
+  d.argTypes = expectedArgTypes (a.intArgs.map a.wordReg) a.stackArgOffset (a.wordBits / 8) d.argTypes.length
+
+/-- weaker (used where `ArgsInAbiOrder` is a recorded finding): the same with the register sequence
+    "ABI integer sequence, then ABI floating-point/SIMD sequence" -/
+def ArgTypesIntThenFp (d : ArchDesc) (a : AbiSpec) : Prop :=
+  d.argTypes.length = d.args.length + extraArgs + 1 ∧
+  d.argTypes = expectedArgTypes (a.intArgs.map a.wordReg ++ a.fpArgs) a.stackArgOffset (a.wordBits / 8)
+    d.argTypes.length
+
+/-- the stack answers of `argument_type` by themselves (independent of which registers precede them): there are
+    at least `extraArgs + 1` of them in the swept range, the first is at the ABI's offset, successive ones are
+    exactly one machine word apart, and after the first stack answer no register answer follows -/
+def StackArgsWordApart (d : ArchDesc) (a : AbiSpec) : Prop :=
+  extraArgs + 1 ≤ d.stackOffsets.length ∧
+  d.stackOffsets = (List.range d.stackOffsets.length).map (fun i => a.stackArgOffset + (a.wordBits / 8) * i) ∧
+  d.argTypes.drop (d.argTypes.length - d.stackOffsets.length) = d.stackOffsets.map .stack
+
+/-- `is_preserved` / `is_trashed` agree with the two sets on every probe (Some(true) / Some(false) / None as
+    documented), are never both Some(true), and the probes cover every register of preserved ∪ trashed ∪
+    arguments ∪ return register ∪ stack pointer, every scalar of the sweep, and a register in neither set -/
+def QueriesAgree (d : ArchDesc) : Prop :=
+  d.isPreserved = d.probes.map (fun r => (r, d.expectPreserved r)) ∧
+  d.isTrashed = d.probes.map (fun r => (r, d.expectTrashed r)) ∧
+  (∀ r ∈ d.ccRegs ++ [d.sp] ++ d.emitted ++ [(noSuchRegister, d.wordSize)], r ∈ d.probes) ∧
+  (noSuchRegister, d.wordSize) ∉ d.preserved ++ d.trashed ∧
+  (∀ r ∈ d.probes, ¬ (d.isPreserved.lookup r = some (some true) ∧ d.isTrashed.lookup r = some (some true)))
+
 /-- every clause of the property for one architecture; the argument clause in the form that holds for all
     seven (`ArgsIntThenFp`, which IS `ArgsInAbiOrder` wherever the ABI table has no SIMD sequence) -/
 def Holds (d : ArchDesc) (a : AbiSpec) : Prop :=
   SpEmitted d ∧ SpAbi d a ∧ WordSizeAgrees d a ∧ EndianAgrees d a ∧ CcRegsEmitted d ∧
   PreservedTrashedDisjoint d ∧ SpPreserved d ∧ ArgsIntThenFp d a ∧ ReturnRegAbi d a ∧ ReturnAddrAbi d a ∧
-  StackArgLenIsWord d a ∧ StackArgOffsetAbi d a
+  StackArgLenIsWord d a ∧ StackArgOffsetAbi d a ∧
+  ArgTypesIntThenFp d a ∧ StackArgsWordApart d a ∧ QueriesAgree d
 
 instance (d : ArchDesc) : Decidable (SpEmitted d) := inferInstanceAs (Decidable (_ ∧ _))
 instance (d : ArchDesc) (a : AbiSpec) : Decidable (WordSizeAgrees d a) := inferInstanceAs (Decidable (_ ∧ _))
@@ -258,6 +336,12 @@ instance (d : ArchDesc) (a : AbiSpec) : Decidable (ReturnAddrAbi d a) := inferIn
 instance (d : ArchDesc) (a : AbiSpec) : Decidable (StackArgLenIsWord d a) := inferInstanceAs (Decidable (_ ∧ _))
 instance (d : ArchDesc) (a : AbiSpec) : Decidable (StackArgOffsetAbi d a) := inferInstanceAs (Decidable (_ = _))
 
+instance (d : ArchDesc) (a : AbiSpec) : Decidable (ArgTypesAbi d a) := inferInstanceAs (Decidable (_ ∧ _))
+instance (d : ArchDesc) (a : AbiSpec) : Decidable (ArgTypesIntThenFp d a) := inferInstanceAs (Decidable (_ ∧ _))
+instance (d : ArchDesc) (a : AbiSpec) : Decidable (StackArgsWordApart d a) := inferInstanceAs (Decidable (_ ∧ _ ∧ _))
+instance (d : ArchDesc) : Decidable (QueriesAgree d) :=
+  inferInstanceAs (Decidable (_ ∧ _ ∧ (∀ r ∈ _, r ∈ _) ∧ _ ∧ (∀ r ∈ _, ¬ (_ ∧ _))))
+
 /-! ### Line protocol texts (mirrors `harness/src/bin/c20.rs`) -/
 
 def regStr (r : Reg) : String := r.1 ++ ":" ++ toString r.2
@@ -273,10 +357,23 @@ def retAddrStr : RetAddr → String
   | .stack o => "stack:" ++ toString o
   | .reg r => "reg:" ++ regStr r
 
+def argTypeStr : ArgType → String
+  | .stack o => "stack:" ++ toString o
+  | .reg r => "reg:" ++ regStr r
+
+def triStr : Option Bool → String
+  | some true => "yes"
+  | some false => "no"
+  | none => "none"
+
+def answersStr (l : List (Reg × Option Bool)) : String :=
+  listStr (l.map (fun x => regStr x.1 ++ "=" ++ triStr x.2))
+
 def fields : List String :=
   ["endian", "word_size", "stack_pointer", "args", "preserved", "trashed", "stack_arg_offset", "stack_arg_len",
    "return_addr", "return_reg", "emitted", "fetch_endian", "store_bytes", "load_addr_bits", "store_addr_bits",
-   "sweep_failed", "sp_emitted", "cc_not_emitted", "preserved_and_trashed", "sp_preserved"]
+   "sweep_failed", "sp_emitted", "cc_not_emitted", "preserved_and_trashed", "sp_preserved",
+   "arg_types", "stack_arg_offsets", "is_preserved", "is_trashed"]
 
 /-- the value of a field according to the (regenerated) table -/
 def fieldStr (d : ArchDesc) : String → Option String
@@ -300,10 +397,16 @@ def fieldStr (d : ArchDesc) : String → Option String
   | "cc_not_emitted" => some (regsStr d.ccNotEmitted)
   | "preserved_and_trashed" => some (listStr d.preservedAndTrashed)
   | "sp_preserved" => some (yes (d.preserved.contains d.sp))
+  | "arg_types" => some (" ".intercalate (d.argTypes.map argTypeStr))
+  | "stack_arg_offsets" => some (listStr (d.stackOffsets.map toString))
+  | "is_preserved" => some (answersStr d.isPreserved)
+  | "is_trashed" => some (answersStr d.isTrashed)
   | _ => none
 
-/-- the value the property requires (`-`: the ABI/property has no opinion on this field by itself) -/
-def specStr (a : AbiSpec) : String → String
+/-- the value the property requires (`-`: the ABI/property has no opinion on this field by itself).  For the
+    query fields the requirement is relative to the table: as many answers as were swept, the probes that were
+    asked, and — for `is_preserved`/`is_trashed` — the table's own two sets. -/
+def specStr (d : ArchDesc) (a : AbiSpec) : String → String
   | "endian" => a.dataEndian
   | "word_size" => toString a.wordBits
   | "stack_pointer" => regStr (a.wordReg a.sp)
@@ -320,6 +423,12 @@ def specStr (a : AbiSpec) : String → String
   | "cc_not_emitted" => "none"
   | "preserved_and_trashed" => "none"
   | "sp_preserved" => "yes"
+  | "arg_types" => " ".intercalate ((expectedArgTypes (a.intArgs.map a.wordReg) a.stackArgOffset (a.wordBits / 8)
+      d.argTypes.length).map argTypeStr)
+  | "stack_arg_offsets" => listStr ((List.range d.stackOffsets.length).map
+      (fun i => toString (a.stackArgOffset + (a.wordBits / 8) * i)))
+  | "is_preserved" => answersStr (d.probes.map (fun r => (r, d.expectPreserved r)))
+  | "is_trashed" => answersStr (d.probes.map (fun r => (r, d.expectTrashed r)))
   | _ => "-"
 
 /-- one request `<arch> <field>` against a table: `<model>\t<spec>` -/
@@ -329,7 +438,7 @@ def handle (table : List ArchDesc) (line : String) : String :=
     match table.find? (fun d => d.name == arch), abiOf arch with
     | some d, some a =>
       match fieldStr d field with
-      | some m => m ++ "\t" ++ specStr a field
+      | some m => m ++ "\t" ++ specStr d a field
       | none => "bad-request\t-"
     | _, _ => "bad-request\t-"
   | _ => "bad-request\t-"
